@@ -13,7 +13,10 @@ class C05Spec(explore.Spec):
     prop = PROP
 
     def configs(self, tier):
-        return [{"version": v, "cb": None} for v in ("1.4", "1.5", "2.0", "2.1", "2.2")]
+        out = [{"version": v, "cb": None} for v in ("1.4", "1.5", "2.0", "2.1", "2.2")]
+        if tier == "thorough":
+            out += [{"version": "2.2", "cb": None, "flavour": "async"}, {"version": "2.2", "cb": None, "transport": "mqtt"}]
+        return out
 
     def alphabet(self, cfg):
         v = cfg["version"]
